@@ -1,5 +1,5 @@
 (* Tree/NoPanicProofsCompat.v — C12: ArxmlFile::check_version_compatibility / set_version (Tree/Compat.v) never panic or run
-   out of fuel in a world with H12 and FI (Tree/NoPanicProofsFiles.v) — for EVERY such world since the fix d9d0053 in
+   out of fuel in a world with H12 and FI (Tree/NoPanicProofsFiles.v) — for EVERY such world since the fix 96557f4 in
    element.rs: the one `unwrap` of the walk reads the version mask in the RECALCULATED type with the index list that this
    very type returned, so the index list is a path of that type (Xml/TablesOk.v path_ok, found_ok).
    Before the fix the mask was read in the STORED type: the call panicked after a move / copy that keeps a stored type the
